@@ -9,9 +9,14 @@ crate::verif_harness! {
     #[kani::stub(std::fmt::format, crate::verif_spec::stubs::format_stub)]
     fn k_gray_rgba(s) {
         let d: [u8; 4] = s.bytes();
-        let g = Grayscale::new(&d[..2]).unwrap().into_rgba();
-        assert!(g == Rgba([d[0], d[0], d[0], d[1]]), "grayscale (v,a) becomes (v,v,v,a)");
-        assert!(read_rgba(&d).unwrap() == Rgba(d), "RGBA pixels verbatim");
+        match Grayscale::new(&d[..2]) {
+            Ok(g) => assert!(g.into_rgba() == Rgba([d[0], d[0], d[0], d[1]]), "grayscale (v,a) becomes (v,v,v,a)"),
+            Err(_) => assert!(false, "two bytes are a grayscale pixel"),
+        }
+        match read_rgba(&d) {
+            Ok(p) => assert!(p == Rgba(d), "RGBA pixels verbatim"),
+            Err(_) => assert!(false, "four bytes are an RGBA pixel"),
+        }
         assert!(Grayscale::new(&d[..1]).is_err() && read_rgba(&d[..3]).is_err(), "short pixels are errors");
     }
 }
@@ -50,7 +55,7 @@ macro_rules! from_bytes_shape {
             /// RawPixels::from_bytes on every $n-byte buffer, each format: RGBA in groups of 4, grayscale
             /// pairs, indexed bytes verbatim; Err iff the length is not a multiple of the pixel size.
             #[kani::stub(std::fmt::format, crate::verif_spec::stubs::format_stub)]
-            #[kani::unwind(10)]
+            #[kani::unwind(12)]
             fn $hname(s) {
                 let d: [u8; $n] = s.bytes();
                 match RawPixels::from_bytes(d.to_vec(), PixelFormat::Rgba) {
